@@ -340,10 +340,14 @@ def gen_nest(seed, feats=None):
     if rng.chance(1.0 / 80):
         # a loop whose backward jump is within a few bytes of the largest distance its 16-bit operand can express: either the
         # compiler refuses the program or the loop runs as written
-        a = rng.range(32755, 32768)
-        pads = [["pad", a]] + ([["pad1"]] if rng.chance(0.5) else [])
-        fi = len(g.funcs)
         kind = rng.choice(["for", "while"])
+        odd = rng.chance(0.5)
+        # (measured for this template: the largest padding the compiler accepts is 32755 / 32754+1 for `for`, 32748 / 32746+1 for
+        # `while`; the sizes just beyond must be refused, the ones just within must run)
+        top = {("for", False): 32755, ("for", True): 32754, ("while", False): 32748, ("while", True): 32746}[(kind, odd)]
+        a = top + rng.choice([-2, -1, 0, 0, 1, 1, 2])
+        pads = [["pad", a]] + ([["pad1"]] if odd else [])
+        fi = len(g.funcs)
         wid = g.id() if kind == "while" else None
         if wid is not None:
             g.whiles.append(wid)
